@@ -68,5 +68,11 @@ use super::pair::*;
 #[allow(unused_imports)] use super::shim::Decimal;
 //%include mlem_lp.rs
 }
+pub mod ledger {
+use super::*;
+use super::pair::*;
+#[allow(unused_imports)] use super::shim::Decimal;
+//%include mlem_ledger.rs
+}
 } // verus!
 fn main() {}
